@@ -2,6 +2,7 @@ package props
 
 import (
 	"fmt"
+	"strings"
 	"time"
 
 	"verif/internal/gen"
@@ -80,9 +81,14 @@ func runC02(w *h.W, batch int) {
 			opt.N = cr.Range(3000, 9000)
 		}
 		corp := gen.MakeCorpus(cr, opt)
-		form := []string{"active", "sealed", "two-fracs", "active-interleaved", "sealed-interleaved"}[cr.Intn(5)]
+		form := []string{"active", "sealed", "two-fracs", "active-interleaved", "sealed-interleaved", "many-fracs"}[cr.Intn(6)]
 		dir := w.Sub(fmt.Sprintf("c%d", ci))
-		st, err := sdb.Open(dir, sdb.Opt{Mapping: StoreMapping()})
+		sopt := sdb.Opt{Mapping: StoreMapping()}
+		if form == "many-fracs" {
+			// the limit cut across fractions searched in several iterations (early termination between iterations)
+			sopt.FracsPerIter = cr.Range(1, 2)
+		}
+		st, err := sdb.Open(dir, sopt)
 		if err != nil {
 			if w.Begin(map[string]any{"corpus": opt, "step": "open"}) {
 				w.Violation("C02:store-did-not-start", map[string]any{"error": err.Error()})
@@ -132,6 +138,11 @@ func runC02(w *h.W, batch int) {
 			if form == "sealed-interleaved" && ierr == nil {
 				st.SealAll()
 			}
+		case "many-fracs":
+			form += fmt.Sprintf("/fpi%d", sopt.FracsPerIter)
+			var forms string
+			forms, ierr = loadFractions(st, cr, splitDocs(cr, docs, cr.Range(3, 6), h.Pick(cr, layoutRules)))
+			form += "/" + forms
 		case "two-fracs":
 			half := len(docs) / 2
 			ierr = ingest(st, docs[:half], cr, cr.Range(1, 3))
@@ -187,7 +198,7 @@ func runC02(w *h.W, batch int) {
 			if asc {
 				ord = "asc"
 			}
-			w.Held(q.Shape()+"|"+rangeClassOf(corp, from, to)+"|"+lclass+"|"+ord+"|"+form+"|"+lang, nontrivial)
+			w.Held(q.Shape()+"|"+rangeClassOf(corp, from, to)+"|"+lclass+"|"+ord+"|"+strings.SplitN(form, "/", 2)[0]+"|"+lang, nontrivial)
 		}
 		st.Stop()
 	}
